@@ -433,6 +433,51 @@ func c05(run *ev.Run, tier string) {
 			}
 		}
 	}
+	// a file put INTO a directory (destination ends in '/') under a relative
+	// spelling of that directory still occupies <dir>/<source name>: a second
+	// entry at that path, or beneath it, collides
+	for _, into := range []string{"etc/app/", "./etc/app/", "/etc/app/", "etc//app/", "/etc/./app/"} {
+		for _, typ := range []string{"file", "config"} {
+			first := func() *files.Content { return &files.Content{Source: fileSrc, Destination: into, Type: typ} }
+			for _, other := range []*files.Content{
+				{Source: fileSrc, Destination: into, Type: typ},
+				{Source: fileSrc, Destination: "/etc/app/f.txt", Type: "file"},
+				{Source: "/nonexistent-verif/t", Destination: "/etc/app/f.txt", Type: "symlink"},
+				{Source: fileSrc, Destination: "/etc/app/f.txt/below", Type: "file"},
+				{Destination: "/etc/app/f.txt/sub", Type: "dir"},
+			} {
+				for _, order := range []bool{true, false} {
+					o := *other
+					list := files.Contents{first(), &o}
+					if !order {
+						list = files.Contents{&o, first()}
+					}
+					for _, f := range []string{"deb", "rpm", "apk"} {
+						_, err := files.PrepareForPackager(list, 0o022, f, false, mtime)
+						run.Case(fmt.Sprintf("into-dir|%s|%s|%s %s|%v|%s", into, typ, other.Type, other.Destination, order, f), true)
+						if err == nil {
+							run.Violate("C05/collision-accepted/file-put-into-directory+"+other.Type, map[string]any{"into": into, "other": other.Type + " " + other.Destination, "into_first": order, "format": f})
+						} else if !errors.Is(err, files.ErrContentCollision) {
+							run.Violate("C05/collision-error-not-ErrContentCollision", map[string]any{"error": err.Error()})
+						}
+					}
+				}
+			}
+			// and alone it lands at the normalised path
+			res, err := files.PrepareForPackager(files.Contents{first()}, 0o022, "deb", false, mtime)
+			if err != nil {
+				run.Violate("C05/valid-list-rejected", map[string]any{"list": typ + " " + into, "error": err.Error()})
+			} else {
+				found := false
+				for _, c := range res {
+					found = found || c.Destination == "/etc/app/f.txt"
+				}
+				if !found {
+					run.Violate("C05/invariant/destination-not-normalised", map[string]any{"into": into, "plan": ev.Short(planString(res), 300)})
+				}
+			}
+		}
+	}
 	// the deb changelog entry is an entry like any other: a declared entry at
 	// its path collides
 	{
